@@ -1,1 +1,869 @@
-fn main() {}
+//! Conformance driver for actix_tls::connect (C19), public API only.
+//!
+//! `vconnect vectors --schedules F --trace T [--seed S] [--host-type string|static] [--rounds K]`
+//!
+//! F: ndjson, one vector per line, produced by TLC from spec/connect/Connect.tla and grouped by the check:
+//!    `{"inp": <input record>, "allowed": [<expected observation>, ..]}`.
+//! For every vector the *real* service named by `inp.svc` is called once:
+//!    "tcp"        TcpConnectorService           "resolver"  ResolverService (custom resolver with a call log)
+//!    "connector"  ConnectorService              "tls"       ConnectorService, then the rustls 0.23 / OpenSSL
+//!                                                          TlsConnectorService on the returned connection
+//! Address flavours of the model are bound to real sockets once per process:
+//!    up/up6    std TcpListener on 127.0.0.1 / ::1 (never polled; drained and counted after every call)
+//!    ref/ref6  closed port outside the ephemeral range (probed: connection refused)
+//!    unr       255.255.255.255 (probed: fails fast with an error other than "refused")
+//!    pu        one port number listening on both loopbacks, pd: one port number closed on both, zero: port 0
+//!    tls       in-process TLS echo servers (tokio-rustls / tokio-openssl acceptors) with rcgen certificates
+//!              (SAN good.verif.test, *.wild.verif.test, 127.0.0.1) issued by a CA the client trusts / does not
+//! Observed (ground truth, never copied from the vector): result variant, raw OS error of an I/O error mapped
+//! to the flavours that produce the same error in a calibration connect, peer address of the returned
+//! stream mapped back to the flavour table, which listeners accepted how many connections, the resolver's
+//! call log, `ConnectInfo::port()` of the request, addresses of the returned ConnectInfo, echo of a seeded random payload through the TLS
+//! stream (differential: bytes written == bytes read back).
+//! T: ndjson `{"ev":"reset"}` / `{"ev":"call","i":..,"inp":..,"obs":..,"raw":..}` / `{"ev":"end"}` per vector, judged
+//! by TLC (ConnectTrace.tla, predicate C19_Holds).  Last stdout line: the standard JSON summary.
+
+use std::{
+    cell::RefCell,
+    collections::{BTreeMap, HashMap},
+    io,
+    net::{IpAddr, Ipv4Addr, Ipv6Addr, SocketAddr, TcpListener as StdListener},
+    rc::Rc,
+    sync::Arc,
+    time::Duration,
+};
+
+use actix_rt::net::TcpStream;
+use actix_service::Service;
+use actix_tls::connect::{
+    tcp::TcpConnector, ConnectError, ConnectInfo, Connection, Connector, Host, Resolve, Resolver,
+};
+use futures_core::future::LocalBoxFuture;
+use tokio::io::{AsyncReadExt, AsyncWriteExt};
+use tokio_rustls_026::rustls::{
+    self,
+    pki_types::{CertificateDer, PrivateKeyDer, PrivatePkcs8KeyDer},
+};
+use vcore::{arg, catch, json, quiet_panics, read_ndjson, Trace, Value};
+
+const NAME_HOST: &str = "verif.test";
+const MAX_POS: usize = 6;
+const CALL_TIMEOUT: Duration = Duration::from_secs(10);
+
+struct Rng(u64);
+impl Rng {
+    fn next(&mut self) -> u64 {
+        self.0 ^= self.0 << 13;
+        self.0 ^= self.0 >> 7;
+        self.0 ^= self.0 << 17;
+        self.0
+    }
+    fn below(&mut self, n: usize) -> usize {
+        (self.next() % n as u64) as usize
+    }
+    fn bytes(&mut self, n: usize) -> Vec<u8> {
+        (0..n).map(|_| self.next() as u8).collect()
+    }
+}
+
+// ---------------------------------------------------------------------------------------------
+// host types
+// ---------------------------------------------------------------------------------------------
+trait MkHost: Host + Clone + std::fmt::Debug {
+    fn mk(s: String) -> Self;
+}
+impl MkHost for String {
+    fn mk(s: String) -> Self {
+        s
+    }
+}
+impl MkHost for &'static str {
+    fn mk(s: String) -> Self {
+        Box::leak(s.into_boxed_str())
+    }
+}
+
+// ---------------------------------------------------------------------------------------------
+// the environment: flavour table
+// ---------------------------------------------------------------------------------------------
+type Id = (String, usize); // (flavour, pos)
+
+struct Env {
+    addr_of: HashMap<Id, SocketAddr>,
+    id_of: HashMap<SocketAddr, Id>,
+    listeners: Vec<(Id, StdListener)>,
+    pu_port: u16,
+    pd_port: u16,
+    have_v6: bool,
+    have_bind: bool,
+    /// (flavour, bind) -> raw os error of a calibration connect
+    errno: HashMap<(String, bool), Option<i32>>,
+    tls: Option<TlsEnv>,
+    leftovers: u64,
+}
+
+fn lo4() -> IpAddr {
+    IpAddr::V4(Ipv4Addr::LOCALHOST)
+}
+fn lo6() -> IpAddr {
+    IpAddr::V6(Ipv6Addr::LOCALHOST)
+}
+fn bind_ip() -> IpAddr {
+    IpAddr::V4(Ipv4Addr::new(127, 0, 0, 2))
+}
+
+fn std_connect_errno(addr: SocketAddr, bind: bool) -> Result<(), Option<i32>> {
+    // same socket calls as the code under test, via tokio, on a throw-away runtime
+    let rt = tokio::runtime::Builder::new_current_thread().enable_all().build().unwrap();
+    rt.block_on(async move {
+        let r = tokio::time::timeout(Duration::from_secs(2), async move {
+            if bind {
+                let s = tokio::net::TcpSocket::new_v4()?;
+                s.bind(SocketAddr::new(bind_ip(), 0))?;
+                s.connect(addr).await
+            } else {
+                tokio::net::TcpStream::connect(addr).await
+            }
+        })
+        .await;
+        match r {
+            Ok(Ok(_)) => Ok(()),
+            Ok(Err(e)) => Err(e.raw_os_error()),
+            Err(_) => Err(Some(-1)), // timed out
+        }
+    })
+}
+
+fn closed_port(rng: &mut Rng, v6: bool) -> u16 {
+    // outside the ephemeral range, so it is never picked as a source port or by a `:0` bind
+    for _ in 0..2000 {
+        let p = 20000 + rng.below(10000) as u16;
+        let ok4 = matches!(std_connect_errno(SocketAddr::new(lo4(), p), false), Err(Some(e)) if e == 111);
+        let ok6 = !v6 || matches!(std_connect_errno(SocketAddr::new(lo6(), p), false), Err(Some(e)) if e == 111);
+        if ok4 && ok6 {
+            return p;
+        }
+    }
+    panic!("driver: no closed port found");
+}
+
+impl Env {
+    fn new(rng: &mut Rng) -> Env {
+        let mut env = Env {
+            addr_of: HashMap::new(),
+            id_of: HashMap::new(),
+            listeners: vec![],
+            pu_port: 0,
+            pd_port: 0,
+            have_v6: StdListener::bind(SocketAddr::new(lo6(), 0)).is_ok(),
+            have_bind: std::net::TcpListener::bind(SocketAddr::new(bind_ip(), 0)).is_ok(),
+            errno: HashMap::new(),
+            tls: None,
+            leftovers: 0,
+        };
+        let v6 = env.have_v6;
+        for pos in 1..=MAX_POS {
+            env.listen(("up".into(), pos), SocketAddr::new(lo4(), 0));
+            if v6 {
+                env.listen(("up6".into(), pos), SocketAddr::new(lo6(), 0));
+            }
+            let p = closed_port(rng, v6);
+            env.put(("ref".into(), pos), SocketAddr::new(lo4(), p));
+            if v6 {
+                let p6 = closed_port(rng, v6);
+                env.put(("ref6".into(), pos), SocketAddr::new(lo6(), p6));
+            }
+            env.put(
+                ("unr".into(), pos),
+                SocketAddr::new(IpAddr::V4(Ipv4Addr::BROADCAST), 9 + pos as u16),
+            );
+        }
+        // port slot pu: one port number live on both loopbacks
+        for _ in 0..2000 {
+            let p = 20000 + rng.below(10000) as u16;
+            let a = StdListener::bind(SocketAddr::new(lo4(), p));
+            let b = if v6 { StdListener::bind(SocketAddr::new(lo6(), p)).ok() } else { None };
+            if let (Ok(a), true) = (a, !v6 || b.is_some()) {
+                a.set_nonblocking(true).unwrap();
+                env.put(("pu4".into(), 0), SocketAddr::new(lo4(), p));
+                env.listeners.push((("pu4".into(), 0), a));
+                if let Some(b) = b {
+                    b.set_nonblocking(true).unwrap();
+                    env.put(("pu6".into(), 0), SocketAddr::new(lo6(), p));
+                    env.listeners.push((("pu6".into(), 0), b));
+                }
+                env.pu_port = p;
+                break;
+            }
+        }
+        assert!(env.pu_port != 0, "driver: no dual-stack port found");
+        env.pd_port = closed_port(rng, v6);
+        env.put(("pd4".into(), 0), SocketAddr::new(lo4(), env.pd_port));
+        env.put(("pd6".into(), 0), SocketAddr::new(lo6(), env.pd_port));
+        env.put(("zero4".into(), 0), SocketAddr::new(lo4(), 0));
+        env.put(("zero6".into(), 0), SocketAddr::new(lo6(), 0));
+        // calibration: what error does each failing flavour give (with and without local bind)
+        for fl in ["ref", "unr", "ref6", "pd4", "pd6", "zero4", "zero6"] {
+            for bind in [false, true] {
+                if (bind && !env.have_bind) || (fl.ends_with('6') && (!v6 || bind)) {
+                    continue;
+                }
+                let pos = if ["ref", "unr", "ref6"].contains(&fl) { 1 } else { 0 };
+                let addr = env.addr_of[&(fl.to_string(), pos)];
+                let e = match std_connect_errno(addr, bind) {
+                    Ok(()) => None, // unexpectedly connects: flavour unusable
+                    Err(e) => e,
+                };
+                env.errno.insert((fl.to_string(), bind), e);
+            }
+        }
+        env
+    }
+    fn put(&mut self, id: Id, addr: SocketAddr) {
+        self.addr_of.insert(id.clone(), addr);
+        self.id_of.insert(addr, id);
+    }
+    fn listen(&mut self, id: Id, at: SocketAddr) {
+        let l = StdListener::bind(at).expect("driver: bind loopback listener");
+        l.set_nonblocking(true).unwrap();
+        let addr = l.local_addr().unwrap();
+        self.put(id.clone(), addr);
+        self.listeners.push((id, l));
+    }
+    /// accept everything pending on every live listener; returns id -> (count, peers)
+    fn drain(&self) -> BTreeMap<Id, Vec<SocketAddr>> {
+        let mut out: BTreeMap<Id, Vec<SocketAddr>> = BTreeMap::new();
+        for (id, l) in &self.listeners {
+            loop {
+                match l.accept() {
+                    Ok((_s, peer)) => out.entry(id.clone()).or_default().push(peer),
+                    Err(e) if e.kind() == io::ErrorKind::WouldBlock => break,
+                    Err(_) => break,
+                }
+            }
+        }
+        out
+    }
+    fn unr_usable(&self, bind: bool) -> bool {
+        matches!(self.errno.get(&("unr".to_string(), bind)), Some(Some(e)) if *e > 0)
+    }
+    fn port_of(&self, slot: &str) -> Option<u16> {
+        match slot {
+            "pu" => Some(self.pu_port),
+            "pd" => Some(self.pd_port),
+            _ => None,
+        }
+    }
+    fn slot_of(&self, port: u16) -> String {
+        if port == self.pu_port {
+            "pu".into()
+        } else if port == self.pd_port {
+            "pd".into()
+        } else if port == 0 {
+            "zero".into()
+        } else {
+            format!("{port}")
+        }
+    }
+    fn id_json(&self, addr: &SocketAddr) -> Value {
+        match self.id_of.get(addr) {
+            Some((fl, pos)) => json!({"fl": fl, "pos": pos}),
+            None => json!({"fl": format!("unknown:{addr}"), "pos": 0}),
+        }
+    }
+}
+
+// ---------------------------------------------------------------------------------------------
+// TLS environment
+// ---------------------------------------------------------------------------------------------
+struct TlsEnv {
+    /// (trusted, server kind) -> address of the echo server
+    servers: HashMap<(bool, &'static str), SocketAddr>,
+    rustls_client: Arc<rustls::ClientConfig>,
+    openssl_client: tls_openssl::ssl::SslConnector,
+}
+
+struct Issued {
+    cert_der: Vec<u8>,
+    cert_pem: String,
+    key_der: Vec<u8>,
+    key_pem: String,
+}
+
+fn make_ca(cn: &str) -> (rcgen::Certificate, rcgen::KeyPair) {
+    let key = rcgen::KeyPair::generate().expect("rcgen key");
+    let mut p = rcgen::CertificateParams::new(Vec::<String>::new()).expect("rcgen params");
+    p.is_ca = rcgen::IsCa::Ca(rcgen::BasicConstraints::Unconstrained);
+    p.distinguished_name.push(rcgen::DnType::CommonName, cn);
+    p.key_usages = vec![
+        rcgen::KeyUsagePurpose::KeyCertSign,
+        rcgen::KeyUsagePurpose::DigitalSignature,
+        rcgen::KeyUsagePurpose::CrlSign,
+    ];
+    let cert = p.self_signed(&key).expect("rcgen ca");
+    (cert, key)
+}
+
+fn issue(ca: &rcgen::Certificate, ca_key: &rcgen::KeyPair) -> Issued {
+    let key = rcgen::KeyPair::generate().expect("rcgen key");
+    let mut p = rcgen::CertificateParams::new(vec![
+        "good.verif.test".to_string(),
+        "*.wild.verif.test".to_string(),
+        "127.0.0.1".to_string(),
+    ])
+    .expect("rcgen params");
+    p.distinguished_name.push(rcgen::DnType::CommonName, "verif leaf");
+    p.extended_key_usages = vec![rcgen::ExtendedKeyUsagePurpose::ServerAuth];
+    let cert = p.signed_by(&key, ca, ca_key).expect("rcgen leaf");
+    Issued {
+        cert_der: cert.der().to_vec(),
+        cert_pem: cert.pem(),
+        key_der: key.serialize_der(),
+        key_pem: key.serialize_pem(),
+    }
+}
+
+async fn echo<S: AsyncReadExt + AsyncWriteExt + Unpin>(mut s: S) {
+    let mut buf = vec![0u8; 16 * 1024];
+    loop {
+        match s.read(&mut buf).await {
+            Ok(0) | Err(_) => break,
+            Ok(n) => {
+                if s.write_all(&buf[..n]).await.is_err() || s.flush().await.is_err() {
+                    break;
+                }
+            }
+        }
+    }
+    let _ = s.shutdown().await;
+}
+
+async fn start_tls_env() -> TlsEnv {
+    let _ = rustls::crypto::aws_lc_rs::default_provider().install_default();
+    let (ca1, ca1_key) = make_ca("verif trusted CA");
+    let (ca2, ca2_key) = make_ca("verif untrusted CA");
+    let mut servers = HashMap::new();
+    for (trusted, ca, ca_key) in [(true, &ca1, &ca1_key), (false, &ca2, &ca2_key)] {
+        let leaf = issue(ca, ca_key);
+        // rustls server
+        let cfg = rustls::ServerConfig::builder()
+            .with_no_client_auth()
+            .with_single_cert(
+                vec![CertificateDer::from(leaf.cert_der.clone())],
+                PrivateKeyDer::Pkcs8(PrivatePkcs8KeyDer::from(leaf.key_der.clone())),
+            )
+            .expect("rustls server config");
+        let acceptor = tokio_rustls_026::TlsAcceptor::from(Arc::new(cfg));
+        let l = tokio::net::TcpListener::bind(SocketAddr::new(lo4(), 0)).await.unwrap();
+        servers.insert((trusted, "rustls"), l.local_addr().unwrap());
+        actix_rt::spawn(async move {
+            loop {
+                if let Ok((io, _)) = l.accept().await {
+                    let acc = acceptor.clone();
+                    actix_rt::spawn(async move {
+                        if let Ok(Ok(s)) = tokio::time::timeout(Duration::from_secs(10), acc.accept(io)).await {
+                            echo(s).await;
+                        }
+                    });
+                }
+            }
+        });
+        // openssl server
+        use tls_openssl::{
+            pkey::PKey,
+            ssl::{Ssl, SslAcceptor, SslMethod},
+            x509::X509,
+        };
+        let mut b = SslAcceptor::mozilla_intermediate_v5(SslMethod::tls()).expect("ssl acceptor");
+        b.set_private_key(&PKey::private_key_from_pem(leaf.key_pem.as_bytes()).unwrap()).unwrap();
+        b.set_certificate(&X509::from_pem(leaf.cert_pem.as_bytes()).unwrap()).unwrap();
+        let acc = Arc::new(b.build());
+        let l = tokio::net::TcpListener::bind(SocketAddr::new(lo4(), 0)).await.unwrap();
+        servers.insert((trusted, "openssl"), l.local_addr().unwrap());
+        actix_rt::spawn(async move {
+            loop {
+                if let Ok((io, _)) = l.accept().await {
+                    let acc = acc.clone();
+                    actix_rt::spawn(async move {
+                        let ssl = match Ssl::new(acc.context()) {
+                            Ok(s) => s,
+                            Err(_) => return,
+                        };
+                        let mut s = match tokio_openssl::SslStream::new(ssl, io) {
+                            Ok(s) => s,
+                            Err(_) => return,
+                        };
+                        let ok = tokio::time::timeout(Duration::from_secs(10), std::pin::Pin::new(&mut s).accept()).await;
+                        if let Ok(Ok(())) = ok {
+                            echo(s).await;
+                        }
+                    });
+                }
+            }
+        });
+    }
+    // clients trust CA 1 only
+    let mut roots = rustls::RootCertStore::empty();
+    roots.add(CertificateDer::from(ca1.der().to_vec())).expect("add root");
+    let rustls_client = Arc::new(
+        rustls::ClientConfig::builder()
+            .with_root_certificates(roots)
+            .with_no_client_auth(),
+    );
+    let mut ob = tls_openssl::ssl::SslConnector::builder(tls_openssl::ssl::SslMethod::tls()).expect("ssl connector");
+    ob.cert_store_mut()
+        .add_cert(tls_openssl::x509::X509::from_der(ca1.der()).unwrap())
+        .expect("add root");
+    TlsEnv {
+        servers,
+        rustls_client,
+        openssl_client: ob.build(),
+    }
+}
+
+// ---------------------------------------------------------------------------------------------
+// custom resolver with a call log
+// ---------------------------------------------------------------------------------------------
+#[derive(Clone)]
+enum Answer {
+    Ok(Vec<SocketAddr>),
+    Empty,
+    Err,
+}
+struct LogResolver {
+    log: Rc<RefCell<Vec<(String, u16)>>>,
+    answer: Answer,
+}
+impl Resolve for LogResolver {
+    fn lookup<'a>(
+        &'a self,
+        host: &'a str,
+        port: u16,
+    ) -> LocalBoxFuture<'a, Result<Vec<SocketAddr>, Box<dyn std::error::Error>>> {
+        self.log.borrow_mut().push((host.to_string(), port));
+        let a = self.answer.clone();
+        Box::pin(async move {
+            // resolve asynchronously, as a real resolver would
+            tokio::task::yield_now().await;
+            match a {
+                Answer::Ok(v) => Ok(v),
+                Answer::Empty => Ok(vec![]),
+                Answer::Err => Err("scripted resolver failure".into()),
+            }
+        })
+    }
+}
+
+// ---------------------------------------------------------------------------------------------
+// one vector
+// ---------------------------------------------------------------------------------------------
+fn strs(v: &Value, k: &str) -> Vec<String> {
+    v[k].as_array().map(|a| a.iter().map(|x| x.as_str().unwrap().to_string()).collect()).unwrap_or_default()
+}
+
+fn entries(env: &Env, fls: &[String]) -> Vec<SocketAddr> {
+    fls.iter().enumerate().map(|(i, fl)| env.addr_of[&(fl.clone(), i + 1)]).collect()
+}
+
+fn needs(inp: &Value) -> (bool, bool, bool) {
+    let all: Vec<String> = strs(inp, "preset").into_iter().chain(strs(inp, "rlist")).collect();
+    let v6 = all.iter().any(|f| f.ends_with('6')) || inp["hostKind"] == "localhost";
+    let unr = all.iter().any(|f| f == "unr");
+    (inp["bind"].as_bool().unwrap_or(false), v6, unr)
+}
+
+fn connect_err(env: &Env, e: &ConnectError, bind: bool) -> (String, Vec<String>, Value) {
+    match e {
+        ConnectError::Resolver(err) => ("Resolver".into(), vec![], json!({"msg": err.to_string()})),
+        ConnectError::NoRecords => ("NoRecords".into(), vec![], json!({})),
+        ConnectError::InvalidInput => ("InvalidInput".into(), vec![], json!({})),
+        ConnectError::Unresolved => ("Unresolved".into(), vec![], json!({})),
+        ConnectError::Io(err) => {
+            let raw = err.raw_os_error();
+            let fls: Vec<String> = env
+                .errno
+                .iter()
+                .filter(|((_, b), v)| *b == bind && raw.is_some() && **v == raw)
+                .map(|((fl, _), _)| fl.clone())
+                .collect();
+            ("Io".into(), fls, json!({"errno": raw, "kind": format!("{:?}", err.kind()), "msg": err.to_string()}))
+        }
+    }
+}
+
+fn build_info<R: MkHost>(env: &Env, inp: &Value, host: String, preset: &[SocketAddr]) -> ConnectInfo<R> {
+    let via = inp["via"].as_str().unwrap_or("new");
+    let mut info = if via == "with_addr" {
+        ConnectInfo::with_addr(R::mk(host), preset[0])
+    } else {
+        ConnectInfo::new(R::mk(host))
+    };
+    if let Some(p) = env.port_of(inp["setPort"].as_str().unwrap_or("none")) {
+        info = info.set_port(p);
+    }
+    match via {
+        "set_addr" => info = info.set_addr(preset.first().copied()),
+        "set_addrs" => info = info.set_addrs(preset.to_vec()),
+        _ => {}
+    }
+    if inp["bind"].as_bool().unwrap_or(false) {
+        info = info.set_local_addr(bind_ip());
+    }
+    info
+}
+
+fn host_string(env: &Env, inp: &Value) -> String {
+    let base = match inp["hostKind"].as_str().unwrap() {
+        "name" => NAME_HOST.to_string(),
+        "ip" => "127.0.0.1".to_string(),
+        "localhost" => "localhost".to_string(),
+        "tlsname" if inp["name"]["id"] == "toolong" => "a.".repeat(148) + "test", // 300 characters
+        "tlsname" => inp["name"]["text"].as_str().unwrap().to_string(),
+        other => panic!("driver: hostKind {other}"),
+    };
+    match env.port_of(inp["hostPort"].as_str().unwrap_or("none")) {
+        Some(p) => format!("{base}:{p}"),
+        None => base,
+    }
+}
+
+fn host_kind(h: &str) -> String {
+    match h {
+        NAME_HOST => "name".into(),
+        "127.0.0.1" => "ip".into(),
+        "localhost" => "localhost".into(),
+        other => format!("raw:{other}"),
+    }
+}
+
+struct CallOut {
+    obs: Value,
+    raw: Value,
+}
+
+async fn run_net<R: MkHost>(env: &Env, inp: &Value) -> CallOut {
+    let svc = inp["svc"].as_str().unwrap();
+    let bind = inp["bind"].as_bool().unwrap_or(false);
+    let preset = entries(env, &strs(inp, "preset"));
+    let host = host_string(env, inp);
+    let log = Rc::new(RefCell::new(Vec::new()));
+    let answer = match inp["resolver"].as_str().unwrap() {
+        "ok" => Answer::Ok(entries(env, &strs(inp, "rlist"))),
+        "empty" => Answer::Empty,
+        _ => Answer::Err,
+    };
+    let resolver = if inp["resolver"] == "default" {
+        Resolver::default()
+    } else {
+        Resolver::custom(LogResolver { log: log.clone(), answer })
+    };
+    let info: ConnectInfo<R> = build_info(env, inp, host.clone(), &preset);
+    let mut obs = json!({"res": "", "variant": "", "errfls": [], "peer": {"fl": "none", "pos": 0}, "accepted": [],
+                         "rcalls": [], "addrs": [], "rport": "", "echo": ""});
+    let mut raw = json!({"host": host});
+    // "the request's port" as the API reports it, before the call
+    let req_port = info.port();
+    obs["rport"] = json!(env.slot_of(req_port));
+    raw["hostname"] = json!(info.hostname());
+    let mut keep: Option<TcpStream> = None;
+    match svc {
+        "resolver" => {
+            let s = resolver.service();
+            match tokio::time::timeout(CALL_TIMEOUT, s.call(info)).await {
+                Err(_) => obs["res"] = json!("timeout"),
+                Ok(Ok(out)) => {
+                    obs["res"] = json!("ok");
+                    obs["addrs"] = Value::Array(out.addrs().map(|a| env.id_json(&a)).collect());
+                    if out.port() != req_port {
+                        obs["rport"] = json!(format!("changed:{}->{}", req_port, out.port()));
+                    }
+                }
+                Ok(Err(e)) => {
+                    let (v, fls, r) = connect_err(env, &e, bind);
+                    obs["res"] = json!("err");
+                    obs["variant"] = json!(v);
+                    obs["errfls"] = json!(fls);
+                    raw["err"] = r;
+                }
+            }
+        }
+        "tcp" | "connector" => {
+            let r: Result<Result<Connection<R, TcpStream>, ConnectError>, _> = if svc == "tcp" {
+                let s = TcpConnector::default().service();
+                tokio::time::timeout(CALL_TIMEOUT, s.call(info)).await
+            } else {
+                let s = Connector::new(resolver).service();
+                tokio::time::timeout(CALL_TIMEOUT, s.call(info)).await
+            };
+            match r {
+                Err(_) => obs["res"] = json!("timeout"),
+                Ok(Ok(conn)) => {
+                    obs["res"] = json!("ok");
+                    let (io, req) = conn.into_parts();
+                    raw["req"] = json!(format!("{:?}", req));
+                    if let Ok(p) = io.peer_addr() {
+                        obs["peer"] = env.id_json(&p);
+                        raw["peer"] = json!(p.to_string());
+                    }
+                    if let Ok(l) = io.local_addr() {
+                        raw["local"] = json!(l.to_string());
+                    }
+                    keep = Some(io);
+                }
+                Ok(Err(e)) => {
+                    let (v, fls, r) = connect_err(env, &e, bind);
+                    obs["res"] = json!("err");
+                    obs["variant"] = json!(v);
+                    obs["errfls"] = json!(fls);
+                    raw["err"] = r;
+                }
+            }
+        }
+        other => panic!("driver: svc {other}"),
+    }
+    // who accepted what during this call
+    let acc = env.drain();
+    let mut accepted = vec![];
+    let mut counts = serde_json::Map::new();
+    for (id, peers) in &acc {
+        accepted.push(json!({"fl": id.0, "pos": id.1}));
+        counts.insert(format!("{}:{}", id.0, id.1), json!(peers.len()));
+        // ground truth: the accepted socket is the other end of the returned stream
+        if let Some(io) = &keep {
+            if peers.len() != 1 || Some(peers[0]) != io.local_addr().ok() {
+                raw["accept_anomaly"] = json!(format!("{:?} accepted {:?}", id, peers));
+                // more than one connection on a listener: report it as a second, distinct acceptance
+                if peers.len() > 1 {
+                    accepted.push(json!({"fl": format!("{}(x{})", id.0, peers.len()), "pos": id.1}));
+                }
+            }
+        }
+    }
+    obs["accepted"] = Value::Array(accepted);
+    raw["accept_counts"] = Value::Object(counts);
+    obs["rcalls"] = Value::Array(
+        log.borrow()
+            .iter()
+            .map(|(h, p)| json!({"host": host_kind(h), "port": env.slot_of(*p)}))
+            .collect(),
+    );
+    drop(keep);
+    CallOut { obs, raw }
+}
+
+async fn run_tls<R: MkHost>(env: &Env, inp: &Value, rng: &mut Rng, rounds: usize, server_kind: &'static str) -> CallOut {
+    let tls = env.tls.as_ref().unwrap();
+    let trusted = inp["trusted"].as_bool().unwrap();
+    let server = tls.servers[&(trusted, server_kind)];
+    let host = host_string(env, inp);
+    let info: ConnectInfo<R> = ConnectInfo::new(R::mk(host.clone())).set_addr(server);
+    let mut obs = json!({"res": "", "variant": "", "errfls": [], "peer": {"fl": "none", "pos": 0}, "accepted": [],
+                         "rcalls": [], "addrs": [], "rport": "", "echo": ""});
+    let mut raw = json!({"host": host, "server": server_kind, "lib": inp["lib"]});
+    let conn = match tokio::time::timeout(CALL_TIMEOUT, Connector::default().service().call(info)).await {
+        Ok(Ok(c)) => c,
+        other => {
+            obs["res"] = json!("tcp-failed");
+            raw["err"] = json!(format!("{:?}", other.map(|r| r.map(|_| ()))));
+            return CallOut { obs, raw };
+        }
+    };
+    // payload rounds: bytes written must come back unchanged
+    async fn exchange<S: AsyncReadExt + AsyncWriteExt + Unpin>(s: &mut S, rng: &mut Rng, rounds: usize) -> Result<usize, String> {
+        let mut total = 0;
+        for r in 0..rounds {
+            let n = if r == 0 { 1 + rng.below(64) } else { 1 + rng.below(12 * 1024) };
+            let data = rng.bytes(n);
+            s.write_all(&data).await.map_err(|e| format!("write: {e}"))?;
+            s.flush().await.map_err(|e| format!("flush: {e}"))?;
+            let mut back = vec![0u8; n];
+            tokio::time::timeout(Duration::from_secs(10), s.read_exact(&mut back))
+                .await
+                .map_err(|_| "read timeout".to_string())?
+                .map_err(|e| format!("read: {e}"))?;
+            if back != data {
+                return Err(format!("payload of {n} bytes came back altered"));
+            }
+            total += n;
+        }
+        Ok(total)
+    }
+    macro_rules! finish {
+        ($r:expr) => {
+            match $r {
+                Err(_) => obs["res"] = json!("timeout"),
+                Ok(Ok(c)) => {
+                    obs["res"] = json!("ok");
+                    let (mut io, _req) = c.into_parts();
+                    match exchange(&mut io, rng, rounds).await {
+                        Ok(n) => {
+                            obs["echo"] = json!("intact");
+                            raw["echo_bytes"] = json!(n);
+                        }
+                        Err(m) => {
+                            obs["echo"] = json!("broken");
+                            raw["echo_err"] = json!(m);
+                        }
+                    }
+                    let _ = io.shutdown().await;
+                }
+                Ok(Err(e)) => {
+                    obs["res"] = json!("err");
+                    obs["variant"] = json!("Tls");
+                    raw["err"] = json!({"kind": format!("{:?}", e.kind()), "msg": e.to_string()});
+                }
+            }
+        };
+    }
+    match inp["lib"].as_str().unwrap() {
+        "rustls" => {
+            let s = actix_tls::connect::rustls_0_23::TlsConnector::service(tls.rustls_client.clone());
+            let r = tokio::time::timeout(CALL_TIMEOUT, s.call(conn)).await;
+            finish!(r);
+        }
+        "openssl" => {
+            let s = actix_tls::connect::openssl::TlsConnector::service(tls.openssl_client.clone());
+            let r = tokio::time::timeout(CALL_TIMEOUT, s.call(conn)).await;
+            finish!(r);
+        }
+        other => panic!("driver: lib {other}"),
+    }
+    CallOut { obs, raw }
+}
+
+fn same_set(a: &Value, b: &[Value]) -> bool {
+    let aa = a.as_array().cloned().unwrap_or_default();
+    aa.len() == b.len() && aa.iter().all(|x| b.contains(x)) && b.iter().all(|x| aa.contains(x))
+}
+
+/// does the observation equal one of the expected observations the spec printed for this input?
+fn matches(inp: &Value, obs: &Value, exp: &Value) -> bool {
+    if obs["res"] != exp["res"] {
+        return false;
+    }
+    if inp["svc"] == "tls" {
+        return obs["echo"] == exp["echo"];
+    }
+    if obs["variant"] != exp["variant"] || obs["rcalls"] != exp["rcalls"] {
+        return false;
+    }
+    if exp["variant"] == "Io" && !obs["errfls"].as_array().unwrap().contains(&exp["errfl"]) {
+        return false;
+    }
+    if obs["peer"] != exp["peer"] {
+        return false;
+    }
+    let want_acc: Vec<Value> = if exp["peer"]["fl"] == "none" { vec![] } else { vec![exp["peer"].clone()] };
+    if !same_set(&obs["accepted"], &want_acc) {
+        return false;
+    }
+    if obs["rport"] != exp["rport"] {
+        return false;
+    }
+    if inp["svc"] == "resolver" && exp["res"] == "ok" && obs["addrs"] != exp["dial"] {
+        return false;
+    }
+    true
+}
+
+fn main() {
+    quiet_panics();
+    let mode = std::env::args().nth(1).unwrap_or_default();
+    if mode != "vectors" {
+        eprintln!("usage: vconnect vectors --schedules F --trace T [--seed S] [--host-type string|static] [--rounds K]");
+        std::process::exit(2);
+    }
+    let sfile = arg("--schedules").expect("--schedules");
+    let tfile = arg("--trace").expect("--trace");
+    let seed: u64 = arg("--seed").and_then(|s| s.parse().ok()).unwrap_or(1);
+    let rounds: usize = arg("--rounds").and_then(|s| s.parse().ok()).unwrap_or(3);
+    let static_host = arg("--host-type").as_deref() == Some("static");
+    let mut rng = Rng(seed.wrapping_mul(0x9E3779B97F4A7C15) | 1);
+    let vecs = read_ndjson(&sfile);
+    let mut env = Env::new(&mut rng);
+    let rt = actix_rt::Runtime::new().expect("runtime");
+    if vecs.iter().any(|v| v["inp"]["svc"] == "tls") {
+        env.tls = Some(rt.block_on(start_tls_env()));
+    }
+    let mut trace = Trace::create(&tfile);
+    let mut mismatches = 0u64;
+    let mut first: Vec<Value> = vec![];
+    let mut steps = 0u64;
+    let mut skipped: BTreeMap<&'static str, u64> = BTreeMap::new();
+    let mut by_svc: BTreeMap<String, u64> = BTreeMap::new();
+    let mut connects_ok = 0u64;
+    let mut panics = 0u64;
+
+    for (i, v) in vecs.iter().enumerate() {
+        let inp = &v["inp"];
+        let svc = inp["svc"].as_str().unwrap().to_string();
+        let (bind, v6, unr) = needs(inp);
+        let skip = if bind && !env.have_bind {
+            Some("no_local_bind_addr")
+        } else if v6 && !env.have_v6 {
+            Some("no_ipv6_loopback")
+        } else if unr && !env.unr_usable(bind) {
+            Some("no_unreachable_flavour")
+        } else {
+            None
+        };
+        if let Some(why) = skip {
+            *skipped.entry(why).or_default() += 1;
+            continue;
+        }
+        let pre = env.drain();
+        env.leftovers += pre.values().map(|p| p.len() as u64).sum::<u64>();
+        let server_kind: &'static str = if (i as u64 + seed) % 2 == 0 { "rustls" } else { "openssl" };
+        let out = catch(|| {
+            rt.block_on(async {
+                match (svc.as_str(), static_host) {
+                    ("tls", false) => run_tls::<String>(&env, inp, &mut rng, rounds, server_kind).await,
+                    ("tls", true) => run_tls::<&'static str>(&env, inp, &mut rng, rounds, server_kind).await,
+                    (_, false) => run_net::<String>(&env, inp).await,
+                    (_, true) => run_net::<&'static str>(&env, inp).await,
+                }
+            })
+        });
+        let out = match out {
+            Ok(o) => o,
+            Err(msg) => {
+                panics += 1;
+                let _ = env.drain();
+                CallOut {
+                    obs: json!({"res": "panic", "variant": "", "errfls": [], "peer": {"fl": "none", "pos": 0}, "accepted": [],
+                                "rcalls": [], "addrs": [], "rport": "", "echo": ""}),
+                    raw: json!({"panic": msg}),
+                }
+            }
+        };
+        steps += 1;
+        *by_svc.entry(svc.clone()).or_default() += 1;
+        if out.obs["res"] == "ok" {
+            connects_ok += 1;
+        }
+        let ok = v["allowed"].as_array().unwrap().iter().any(|e| matches(inp, &out.obs, e));
+        if !ok {
+            mismatches += 1;
+            if first.len() < 20 {
+                first.push(json!({"run": i, "step": svc, "expected": v["allowed"][0], "observed": out.obs, "raw": out.raw}));
+            }
+        }
+        trace.emit(&json!({"ev": "reset", "i": i}));
+        trace.emit(&json!({"ev": "call", "i": i, "inp": inp, "obs": out.obs, "raw": out.raw}));
+        trace.emit(&json!({"ev": "end", "i": i}));
+    }
+    trace.finish();
+    let errno: BTreeMap<String, Option<i32>> = env
+        .errno
+        .iter()
+        .map(|((fl, b), e)| (format!("{fl}{}", if *b { "+bind" } else { "" }), *e))
+        .collect();
+    println!(
+        "{}",
+        json!({"runs": vecs.len(), "steps": steps, "mismatches": mismatches, "first_mismatches": first,
+               "skipped": skipped, "by_svc": by_svc, "ok_results": connects_ok, "panics": panics,
+               "leftover_accepts": env.leftovers,
+               "env": {"ipv6_loopback": env.have_v6, "local_bind_127_0_0_2": env.have_bind, "errno": errno,
+                       "host_type": if static_host { "&'static str" } else { "String" }}})
+    );
+}
